@@ -4,8 +4,14 @@ import CM.Generated.Fn
 /-! Driver handler for C02.
 
 `q <name>`  — the model of SubjectQualifiesForCert on one string.
-`hs od fn mg af ar idna allow <name> hit dflt managed due tlpos revoked aridue M tok* (K tok*)* => res`
-  — one handshake of the implementation: configuration class, name facts, what the handshake
+`hs od fn mg af ar idna allow <name> tr <subject> hit dflt managed due tlpos revoked aridue M tok* (K tok*)* => res`
+  — one handshake of the implementation: configuration class, name facts, the certificate subject
+  that belongs to the name (`tr` = 0: no `SubjectTransformer`, the subject is the name; 1: a
+  transformer, the wildcard variant of the name has the wildcard of the subject as its subject;
+  2: a transformer that gives the name and its wildcard variant the same subject). The classes in
+  the tokens (`n`, `w`, `o`) are relative to the SUBJECT (what storage and the issuer are asked
+  for); `idna`, `allow`, the syntax check and the decision function's argument are about the NAME
+  (what the client sent — the thing the policy permits or does not permit). Then what the handshake
   sees when it looks at the cache / at its certificate (probed on the real structures), the
   observed effect sequence of the handshake's goroutine (`M`) and of every goroutine it
   started (`K`, in canonical order), and the result class. The driver
@@ -53,11 +59,14 @@ structure Ctx where
   c : Cfg
   f : Facts
   pins : Pins
+  same : Bool := false   -- a transformer maps the name and its wildcard variant to one subject
 
-def nmMatches (n : Nm) (cls : String) : Bool :=
+/-- with a subject transformer the model's `hello` / `wild` are the subjects of the name and of
+its wildcard variant; when they are one and the same string, so are their storage keys -/
+def nmMatches (same : Bool) (n : Nm) (cls : String) : Bool :=
   match n with
   | .hello => cls == "n"
-  | .wild => cls == "w"
+  | .wild => cls == "w" || (same && cls == "n")
   | .cert0 => cls == "n" || cls == "w"
 
 /-- how an effect relates to the observation -/
@@ -106,7 +115,7 @@ def explore (x : Ctx) (re : St → List (Nat × St)) : Prog Eff → St → List 
       match st.main with
       | [] => []
       | t :: rest =>
-        if t.kind == kind && (match nm with | some n => nmMatches n t.cls | none => true) then
+        if t.kind == kind && (match nm with | some n => nmMatches x.same n t.cls | none => true) then
           explore x re (k t.val) { upd st e with main := rest }
         else []
     | .pin v => explore x re (k v) (upd st e)
@@ -182,13 +191,14 @@ def handle (args impl : List String) : String :=
         reply "translated-definition-differs-from-model" "-" "!" else
       reply (if r then "1" else "0") "-" (if r then "" else "rejects")
     | none => bad
-  | "hs" :: od :: fn :: mg :: af :: ar :: idna :: allow :: name :: hit :: dflt :: managed :: due :: tlpos :: revoked :: aridue :: "M" :: toks =>
+  | "hs" :: od :: fn :: mg :: af :: ar :: idna :: allow :: name :: tr :: _subject :: hit :: dflt :: managed :: due :: tlpos :: revoked :: aridue :: "M" :: toks =>
     match decStr name with
     | none => bad
     | some nm =>
       let q := qualifies nm
       let x : Ctx := { c := ⟨b od, b fn, b mg, b af, b ar⟩, f := ⟨b idna, q, b allow⟩,
-                       pins := ⟨b hit, b dflt, b managed, b due, b tlpos, b revoked, b aridue⟩ }
+                       pins := ⟨b hit, b dflt, b managed, b due, b tlpos, b revoked, b aridue⟩,
+                       same := tr == "2" }
       let threads := splitThreads toks [] []
       let main := threads.headD []
       let kids := threads.drop 1
@@ -204,7 +214,7 @@ def handle (args impl : List String) : String :=
           | [] => "nomatch"
           | r :: _ => r
       let tag := if threads.all List.isEmpty then "" else
-        implRes ++ "/" ++ toString kids.length ++ "k/" ++ toString (threads.foldl (fun n t => n + t.length) 0)
+        (if tr == "0" then "" else "tr" ++ tr ++ "/") ++ implRes ++ "/" ++ toString kids.length ++ "k/" ++ toString (threads.foldl (fun n t => n + t.length) 0)
       reply model verdict tag
   | _ => bad
 
